@@ -111,7 +111,7 @@ class Session:
 
 
 def run_session(raw, script, data_file, argv=(), scheduler="batch", build_script=None, exp_name=None,
-                run_filter=None, seed=None, validate=False):
+                run_filter=None, seed=None, validate=False, cli_reporter=None):
     """script(bench, nth_start, inv) -> (rc, output) | raises OSError
        build_script(text, cwd) -> (rc, stdout, stderr) | raises OSError"""
     ses = Session()
@@ -149,7 +149,7 @@ def run_session(raw, script, data_file, argv=(), scheduler="batch", build_script
             if validate:
                 impl.validate_config(raw)
             ds = DataStore(ui)
-            cnf = Configurator(raw, ds, ui, opts, None, exp_name, data_file, None, run_filter, opts.machine)
+            cnf = Configurator(raw, ds, ui, opts, cli_reporter, exp_name, data_file, None, run_filter, opts.machine)
             runs = cnf.get_runs()
             ds.load_data(runs, opts.do_rerun)
             ex = Executor(runs, cnf.do_builds, ui, opts.include_faulty, False, SCHEDULERS[scheduler],
